@@ -5,12 +5,12 @@ import prelude, gen, clientsim, refdc, toycrypto, der
 from check import canon_exc, hx, DELIBERATE
 
 MANIFEST = {
-    "text": "Lean theorems: blobUnpack_deliberate / readers_deliberate (for EVERY byte string, DPAPINGBlob.unpack and each ASN.1 reader return or raise a deliberate error), getKek_deliberate (any envelope × any key identifier), targetSd_deliberate, unprotect_deliberate / unprotect_finish_deliberate (for EVERY byte string, every cache state and every DC reply, the model of ncrypt_unprotect_secret ends in a plaintext, a DC request, or one of the deliberate error types — proved function by function with the Safe calculus of Proofs/Safe*.lean; each Python site that can raise IndexError / struct.error / OverflowError is an explicit partial operation in the model and the proof shows a guard dominates it, e.g. the D13 length guard makes the DH modulus fit its declared width so to_bytes cannot overflow), kdf_calls_le (≤ 63 KDF steps in the L1/L2 walk whatever indices the blob names); every model function is total (kernel-checked termination: structural recursion or fuel ≤ input length); range/cover kernels of compute_l2_key regenerated from source; ncrypt_unprotect_secret and DPAPINGBlob.unpack tied to the model by correspondence on all truncations and single-bit flips of the Windows blobs and of fresh blobs, DER-aware mutants, key-identifier boundary values and random bytes, under a KDF-call budget and a sys.monitoring line-event budget (so non-termination is reported, not hung)",
+    "text": "Lean theorems: blobUnpack_deliberate / readers_deliberate (for EVERY byte string, DPAPINGBlob.unpack and each ASN.1 reader return or raise a deliberate error), getKek_deliberate (any envelope × any key identifier), targetSd_deliberate, unprotect_deliberate / unprotect_finish_deliberate (for EVERY byte string, every cache state and every DC reply, the model of ncrypt_unprotect_secret ends in a plaintext, a DC request, or one of the deliberate error types — proved function by function with the Safe calculus of Proofs/Safe*.lean; each Python site that can raise IndexError / struct.error / OverflowError is an explicit partial operation in the model and the proof shows a guard dominates it, e.g. the D13 length guard makes the DH modulus fit its declared width so to_bytes cannot overflow), kdf_calls_le (≤ 63 KDF steps in the L1/L2 walk whatever indices the blob names), parser_loops_bounded (each data-driven parser loop — base-128 octets, OID arcs, the recipient-info SET — makes at most one iteration per input octet); every model function is total (kernel-checked termination: structural recursion or fuel ≤ input length); range/cover kernels of compute_l2_key regenerated from source; ncrypt_unprotect_secret and DPAPINGBlob.unpack tied to the model by correspondence on all truncations and single-bit flips of the Windows blobs and of fresh blobs, DER-aware mutants, key-identifier boundary values and random bytes, under a KDF-call budget and a sys.monitoring line-event budget (so non-termination is reported, not hung)",
     "note": "Trusted: Lean kernel; model (differential tie); the primitives raise only InvalidTag / InvalidUnwrap / ValueError (a premise about `cryptography`: CryptoSafe); work is counted in loop iterations and primitive calls — the bit-complexity of CPython big-integer arithmetic is not modelled",
     "technique": "Lean 4 proof (error-set typing with a Safe calculus over the Except monad + step bounds) + kernel extraction + malformed-stream correspondence under budgets",
 }
 THEOREMS = ["DpapiNg.C05.blobUnpack_deliberate", "DpapiNg.C05.readers_deliberate", "DpapiNg.C05.getKek_deliberate", "DpapiNg.C05.targetSd_deliberate",
-            "DpapiNg.C05.unprotect_deliberate", "DpapiNg.C05.unprotect_finish_deliberate", "DpapiNg.C05.kdf_calls_le"]
+            "DpapiNg.C05.unprotect_deliberate", "DpapiNg.C05.unprotect_finish_deliberate", "DpapiNg.C05.kdf_calls_le", "DpapiNg.C05.parser_loops_bounded"]
 RULE = ("all truncations and all single-bit flips of the 17 Windows blobs (quick: stride) and of fresh blobs of every configuration; DER-aware mutants (zero-length INTEGER / OID, "
         "1..127 length octets, huge lengths, wrong tags, high tag numbers, indefinite length) at every TLV of a blob; key-identifier fields at {0,1,31,32,2^31-1,2^31,2^32-1} and "
         "length fields at {0,1,2,2^32-1}; hostile FFC/ECDH key_info; random bytes; each case: outcome class, KDF calls ≤ 70, dpapi_ng line events ≤ 200·len+20000; distinct by input")
